@@ -184,7 +184,7 @@ def _select(item, res, viol):
                             viol("atleast:%s" % ("reruns-needlessly" if gotrun else "fails-to-rerun"),
                                  "HEAD %s versions %s --at-least %s: should_run=%s, rule says %s (selected %s)"
                                  % (head, _pv(versions), c, gotrun, wantrun, _pv1(want)), dict(art, at_least=c))
-            ctx.version_index._conn.close()
+            ctx = None   # (the SQLite connection is closed when the Context is collected; no private attribute is touched)
         if res["sample"] is None and len(versions) == 2:
             res["sample"] = {"dag_parents": item["dag"], "versions": _pv(versions), "head": n - 1,
                              "reference_selection": _pv1(ref.select_version(versions, "git", commits, hname(n - 1)))}
